@@ -19,11 +19,20 @@ typedef struct { bool present; PerPair w; PerPair scratch; } iora_permap;
 size_t G_rec_erases, G_rec_emplaces, G_per_erases;
 RecPair nondet_RecPair(void); PerPair nondet_PerPair(void);
 static inline RecIt iora_recmap_end(iora_recmap *m) { (void)m; return NULL; }
+/* ghosts that carry the global invariants to the lookups of the OTHER keys (every instance is an instance of an invariant that is
+ * established at the three push sites - scheduleAt, schedulePeriodic, re-arm - which emplace record and heap item with the SAME time):
+ *   INV_HR  a heap item (tp, id) whose record exists has tp == record.tp        INV_PR  periodic.nextExecution == record.tp while both exist */
+int64_t G_top_tp; uint64_t G_top_id; _Bool G_top_valid;          /* set by _heap.front(): the item collectDueLocked is looking at */
+uint64_t G_lr_key; int64_t G_lr_tp; _Bool G_lr_found;            /* last _records.find() */
 static inline RecIt iora_recmap_find(iora_recmap *m, uint64_t k)
 {
-  if (k == GID) return m->present ? &m->w : NULL;
+  G_lr_key = k; G_lr_found = 0;
+  if (k == GID) { if (m->present) { G_lr_found = 1; G_lr_tp = m->w.second.tp; } return m->present ? &m->w : NULL; }
   if (nondet_bool()) return NULL;
-  m->scratch = nondet_RecPair(); m->scratch.first = k; return &m->scratch;
+  m->scratch = nondet_RecPair(); m->scratch.first = k;
+  if (G_top_valid && k == G_top_id) IORA_ASSUME(m->scratch.second.tp == G_top_tp);          /* INV_HR for the key being collected */
+  G_lr_found = 1; G_lr_tp = m->scratch.second.tp;
+  return &m->scratch;
 }
 static inline void iora_recmap_erase(iora_recmap *m, RecIt it)
 {
@@ -44,7 +53,12 @@ static inline PerIt iora_permap_find(iora_permap *m, uint64_t k)
   m->scratch = nondet_PerPair(); m->scratch.first = k;
   IORA_ASSUME(m->scratch.second.interval > 0 && m->scratch.second.interval <= ((int64_t)1 << 61));   /* INV_P for the other keys (see post.c) */
   IORA_ASSUME(m->scratch.second.nextExecution >= -((int64_t)1 << 61) && m->scratch.second.nextExecution <= ((int64_t)1 << 61));
+  if (G_lr_found && G_lr_key == k) IORA_ASSUME(m->scratch.second.nextExecution == G_lr_tp);  /* INV_PR for the key just looked up in _records */
   return &m->scratch;
+}
+static inline void iora_permap_emplace(iora_permap *m, uint64_t k, PeriodicTimer t)
+{
+  if (k == GID && !m->present) { m->present = true; m->w.first = k; m->w.second = t; }
 }
 static inline void iora_permap_erase(iora_permap *m, PerIt it)
 {
@@ -55,7 +69,7 @@ static inline void iora_permap_erase(iora_permap *m, PerIt it)
 
 /* ---- std::vector<Handler> out: count + last handler ---- */
 typedef struct { size_t n; uint64_t last; } iora_hvec;
-static inline void iora_hvec_push_back(iora_hvec *v, uint64_t h) { IORA_ASSERT(v->n < (size_t)-1, "vector growth"); v->n++; v->last = h; }
+static inline void iora_hvec_push_back(iora_hvec *v, uint64_t h) { v->n++; v->last = h; }   /* growth failure = bad_alloc, outside the property */
 
 /* ---- std::vector<HeapItem> _heap ---- */
 #ifdef HEAP_CONCRETE
@@ -84,10 +98,21 @@ static inline void iora_heap_emplace_back(iora_heap *h, HeapItem x) { IORA_ASSER
 /* abstract heap for the step proofs (unbounded size): only the front element and the last pushed element are tracked;
  * heapPop/siftUp are REPLACED by recording contracts there, so no other element is ever read */
 typedef struct { size_t n; HeapItem front; HeapItem pushed; size_t pushes; } iora_heap;
+/* ghost measure for the termination proof: G_M = sum over ALL heap items of W(item.tp), W(tp) = max(0, now - tp + 1)  (128 bit: no overflow) */
+__int128 G_M; int64_t G_now;
+#define IORA_W(tp) ((tp) <= G_now ? (__int128)G_now - (__int128)(tp) + 1 : (__int128)0)
 static inline bool iora_heap_empty(const iora_heap *h) { return h->n == 0; }
 static inline size_t iora_heap_size(const iora_heap *h) { return h->n; }
-static inline HeapItem *iora_heap_front(iora_heap *h) { IORA_ASSERT(h->n > 0, "front() on non-empty vector"); return &h->front; }
-static inline void iora_heap_emplace_back(iora_heap *h, HeapItem x) { IORA_ASSERT(h->n < (size_t)-1, "vector growth"); h->pushed = x; h->pushes++; h->n++; }
+static inline HeapItem *iora_heap_front(iora_heap *h) { IORA_ASSERT(h->n > 0, "front() on non-empty vector"); G_top_tp = h->front.tp; G_top_id = h->front.id; G_top_valid = 1; return &h->front; }
+static inline void iora_heap_emplace_back(iora_heap *h, HeapItem x)
+{
+  IORA_ASSERT(h->n < (size_t)-1, "vector growth");
+  h->pushed = x; h->pushes++;
+  G_M += IORA_W(x.tp);                                                   /* definition of the ghost sum: one more item */
+  /* emplace_back + siftUp: the minimum of the heap becomes min(old minimum, x) (earliest time, then smallest id) */
+  if (h->n == 0 || x.tp < h->front.tp || (x.tp == h->front.tp && x.id < h->front.id)) h->front = x;
+  h->n++;
+}
 static inline HeapItem *iora_heap_at(iora_heap *h, size_t i) { IORA_ASSERT(0, "abstract heap: element access only in HEAP_CONCRETE proofs"); (void)i; return &h->front; }
 static inline HeapItem *iora_heap_back(iora_heap *h) { IORA_ASSERT(0, "abstract heap: element access only in HEAP_CONCRETE proofs"); return &h->front; }
 static inline void iora_heap_pop_back(iora_heap *h) { IORA_ASSERT(0, "abstract heap: element access only in HEAP_CONCRETE proofs"); (void)h; }
@@ -131,3 +156,23 @@ size_t GI;
 /* schedulePeriodic guard prefix */
 _Bool G_guard_passed; int64_t G_deadline;
 static inline int64_t iora_clock_now(void) { int64_t t = nondet_i64(); IORA_ASSUME(t >= 0 && t <= ((int64_t)1 << 61)); return t; }
+
+size_t G_n0, G_pops, G_sifts, G_sift_idx;
+/* ---- collectDueLocked, the whole loop: termination. Variant = ghost sum G_M (see above). One continuing iteration pops the front item
+ * (tp <= now, weight >= 1) and pushes at most one item whose time is front.tp + interval (INV_HR, INV_PR, D5), interval > 0 (INV_P), so its
+ * weight is strictly smaller. The invariant carries the witness id's instances of INV_P / INV_PR / INV_HR and G_M >= W(front) >= 0. ---- */
+#if !defined(HEAP_CONCRETE) && !defined(HEAP_SYMBOLIC)
+#define LW_(tp) ((tp) <= now ? (__int128)now - (__int128)(tp) + 1 : (__int128)0)
+#define IORA_LOOP_TimerService_collectDueLocked_1 IORA_LC( \
+  __CPROVER_assigns(self->_records, self->_periodicTimers, self->_heap, out->n, out->last, G_M, G_pops, G_sifts, G_sift_idx, G_rec_erases, G_rec_emplaces, G_per_erases, \
+                    G_top_tp, G_top_id, G_top_valid, G_lr_key, G_lr_tp, G_lr_found) \
+  __CPROVER_loop_invariant(G_now == now && self->_heap.n <= G_n0) \
+  __CPROVER_loop_invariant(G_M >= 0 && (self->_heap.n > 0 ==> G_M >= LW_(self->_heap.front.tp))) \
+  __CPROVER_loop_invariant(self->_records.present ==> self->_records.w.first == GID) \
+  __CPROVER_loop_invariant(self->_periodicTimers.present ==> (self->_periodicTimers.w.first == GID && self->_periodicTimers.w.second.interval > 0 && self->_periodicTimers.w.second.interval <= ((int64_t)1 << 61))) \
+  __CPROVER_loop_invariant((self->_records.present && self->_periodicTimers.present) ==> self->_periodicTimers.w.second.nextExecution == self->_records.w.second.tp) \
+  __CPROVER_loop_invariant((self->_heap.n > 0 && self->_heap.front.id == GID && self->_records.present) ==> self->_records.w.second.tp == self->_heap.front.tp) \
+  __CPROVER_decreases(G_M))
+#else
+#define IORA_LOOP_TimerService_collectDueLocked_1 IORA_LC()
+#endif
